@@ -646,6 +646,9 @@ type Analysis struct {
 	KeepDead bool
 	// cur: the expanded calls of the CFG node being evaluated
 	cur []*InlSite
+	// self-referential assignment being evaluated disjunct by disjunct, and the old value's equal term
+	inSelfSplit bool
+	selfPartner *Term
 }
 
 // Analyze runs from the function entry with an assumption (True for none).
@@ -1647,6 +1650,32 @@ func (a *Analysis) assign(st State, lhs, rhs ast.Expr, tok token.Token) State {
 	if isIdent {
 		obj = f.Info.ObjectOf(id)
 	}
+	// v = f(v): where the old value of v has a known equal term, the right-hand side is read over that term,
+	// path by path (`event = watch.Event{Type: event.Type, ...}` with event == received)
+	if isIdent && obj != nil && !a.inSelfSplit && len(st.D) > 1 || isIdent && obj != nil && !a.inSelfSplit && len(st.D) == 1 {
+		if mentionsIdent(f.Info, rhs, obj) && !isIntegerType(lt) && !isBool(lt) {
+			res := Unreachable()
+			a.inSelfSplit = true
+			for _, d := range st.D {
+				one := State{D: []*Disj{d}}
+				var partner *Term
+				for _, o := range d.EqualTerms(Var(obj)) {
+					if o.K != 'c' && o.K != 'n' && o.K != 'o' && !o.Mentions(func(s *Term) bool { return s.K == 'v' && s.Obj == obj }) && f.Eng.Canon.PureTerm(o) {
+						if partner == nil || (o.K == 'v' && partner.K != 'v') {
+							partner = o
+						}
+					}
+				}
+				a.selfPartner = partner
+				res = Join(res, a.assign(one, lhs, rhs, tok))
+			}
+			a.inSelfSplit, a.selfPartner = false, nil
+			return res
+		}
+	}
+	if a.inSelfSplit && a.selfPartner != nil && isIdent && obj != nil && rt != nil {
+		rt = rt.Subst(Var(obj).key, a.selfPartner)
+	}
 	// x = x op c for integers keeps one-sided bounds
 	if isIdent && obj != nil && rt != nil && isIntegerType(lt) {
 		if b, off, ok := linear(rt); ok && b != nil && b.K == 'v' && b.Obj == obj && off != 0 {
@@ -1747,6 +1776,17 @@ func (a *Analysis) assign(st State, lhs, rhs ast.Expr, tok token.Token) State {
 	return st.Assume(FEq(ltm, rt))
 }
 
+func mentionsIdent(info *types.Info, e ast.Expr, obj types.Object) bool {
+	found := false
+	ast.Inspect(e, func(n ast.Node) bool {
+		if id, ok := n.(*ast.Ident); ok && info.ObjectOf(id) == obj {
+			found = true
+		}
+		return !found
+	})
+	return found
+}
+
 // literalFields: `x := T{F: e}` (or &T{...}) stores e into x.F exactly as `x.F = e` would.
 func (a *Analysis) literalFields(st State, base *Term, baseT types.Type, lit *ast.CompositeLit) State {
 	f := a.Fn
@@ -1793,6 +1833,9 @@ func (a *Analysis) literalFields(st State, base *Term, baseT types.Type, lit *as
 			continue
 		}
 		rt := a.term(kv.Value)
+		if rt != nil && a.inSelfSplit && a.selfPartner != nil {
+			rt = rt.Subst(base.key, a.selfPartner)
+		}
 		if rt != nil && f.Eng.Canon.PureTerm(rt) && !rt.Mentions(func(s *Term) bool { return s.key == base.key }) {
 			st = st.Assume(FEq(ft, rt))
 		}
